@@ -714,3 +714,84 @@ Proof.
   - apply (map_permA ceqv ceqv); [apply ct_round_ceqv|exact C].
   - apply tax_sum_permA, C.
 Qed.
+
+(* ---------------- lookup form: what is found for a category code and a query combo ---------------- *)
+Definition group_figures (g : rate_total) : amount * amount * amount := (rt_base g, rt_amount g, rt_suramount g).
+
+Lemma find_group_permA q R R' : distinct_groups R' -> PermutationA geqv R R' ->
+  forall g, find_group q R = Some g -> exists g', find_group q R' = Some g' /\ geqv g g'.
+Proof.
+  intros D' P g E. destruct (find_group_some _ _ _ E) as [Ig Mg].
+  assert (IA : InA geqv g R') by (apply (PermutationA_equivlistA geqv_equiv P), In_InA; [exact geqv_equiv|exact Ig]).
+  apply InA_alt in IA. destruct IA as (g' & Eg & Ig').
+  assert (Mg' : rt_matches g' q = true).
+  { apply (matches_same_group g' g q); [|exact Mg]. rewrite same_group_sym. apply Eg. }
+  destruct (find_group_in q R' g' Ig' Mg') as (h & Eh). destruct (find_group_some _ _ _ Eh) as [Ih Mh].
+  assert (h = g').
+  { apply (distinct_same_group_eq R'); try assumption. unfold same_group. apply (rt_matches_join h g' q); assumption. }
+  subst h. exists g'. split; assumption.
+Qed.
+
+Lemma find_group_figures_permA q R R' : distinct_groups R -> distinct_groups R' -> PermutationA geqv R R' ->
+  option_map group_figures (find_group q R) = option_map group_figures (find_group q R').
+Proof.
+  intros D D' P.
+  destruct (find_group q R) as [g|] eqn:E.
+  - destruct (find_group_permA q R R' D' P g E) as (g' & -> & (_ & B & A & U)).
+    cbn [option_map]. unfold group_figures. rewrite B, A, U. reflexivity.
+  - destruct (find_group q R') as [g'|] eqn:E'; [|reflexivity].
+    assert (P' : PermutationA geqv R' R) by (symmetry; exact P).
+    destruct (find_group_permA q R' R D P' g' E') as (g & Eg & _). congruence.
+Qed.
+
+Lemma distinct_map f R : (forall g h, same_group (f g) (f h) = same_group g h) ->
+  distinct_groups R -> distinct_groups (map f R).
+Proof.
+  intros Hf. induction R as [|x r IH]; cbn [map distinct_groups]; [auto|]. intros [F D]. split; [|apply IH, D].
+  apply Forall_forall. intros y Iy. apply in_map_iff in Iy. destruct Iy as (y0 & <- & Iy0).
+  rewrite Hf. rewrite Forall_forall in F. apply F, Iy0.
+Qed.
+
+Lemma same_group_calc_eq c g h : same_group (rt_calc c g) (rt_calc c h) = same_group g h.
+Proof.
+  unfold same_group. rewrite rt_calc_matches. apply rt_matches_ext; unfold rt_combo; cbn [cb_ext cb_country cb_pct cb_sur].
+  - apply rt_calc_ext.
+  - apply rt_calc_country.
+  - apply rt_calc_pct.
+  - apply rt_calc_sur.
+Qed.
+Lemma same_group_round_eq c g h : same_group (rt_round c g) (rt_round c h) = same_group g h.
+Proof. reflexivity. Qed.
+
+Lemma find_cat_map f code cts : (forall ct, ct_code (f ct) = ct_code ct) ->
+  find_cat code (map f cts) = option_map f (find_cat code cts).
+Proof.
+  intros Hf. induction cts as [|x r IH]; cbn [map find_cat]; [reflexivity|].
+  rewrite Hf. destruct (eqb_bytes (ct_code x) code); [reflexivity|exact IH].
+Qed.
+
+Lemma cat_rates_calc_round cr c code cts :
+  cat_rates code (map (ct_round c) (map (ct_calc cr c) cts)) = map (rt_round c) (map (rt_calc c) (cat_rates code cts)).
+Proof.
+  unfold cat_rates. rewrite !find_cat_map by reflexivity. destruct (find_cat code cts); reflexivity.
+Qed.
+
+Lemma cat_rates_distinct cr c code tls : distinct_groups (cat_rates code (base_totals cr c tls)).
+Proof. rewrite cat_rates_base_totals. apply fold_add_pair_distinct. exact I. Qed.
+
+(* for every category code and every query combo, the group the combo falls into has the same base,
+   amount and surcharge amount whatever the order of the rows (no hypothesis on retention needed) *)
+Theorem group_figures_independent_of_row_order cr c tls tls' code q :
+  Permutation tls tls' ->
+  let cats := map (ct_round c) (map (ct_calc cr c) (base_totals cr c tls)) in
+  let cats' := map (ct_round c) (map (ct_calc cr c) (base_totals cr c tls')) in
+  option_map group_figures (find_group q (cat_rates code cats)) =
+  option_map group_figures (find_group q (cat_rates code cats')).
+Proof.
+  intros P. cbv zeta. rewrite !cat_rates_calc_round.
+  apply find_group_figures_permA.
+  - apply distinct_map; [apply same_group_round_eq|]. apply distinct_map; [apply same_group_calc_eq|]. apply cat_rates_distinct.
+  - apply distinct_map; [apply same_group_round_eq|]. apply distinct_map; [apply same_group_calc_eq|]. apply cat_rates_distinct.
+  - apply (map_permA geqv geqv); [apply rt_round_geqv|]. apply (map_permA geqv geqv); [apply rt_calc_geqv|].
+    apply category_groups_independent_of_row_order, P.
+Qed.
